@@ -26,6 +26,7 @@ import (
 	"context"
 	"fmt"
 	"github.com/itchio/wharf/pwr/bowl"
+	"io"
 	"runtime/debug"
 	"sort"
 	"strings"
@@ -66,7 +67,7 @@ func main() {
 	runner.Main(runner.Config{
 		ID:    "C18",
 		Level: "model_checking",
-		Rule:  "bounded exhaustive enumeration: signed size in {0,1,B-1,B,B+1,2B,2B+1 (thorough: +3B)} x written content = signed content with every assignment of {unchanged, first byte inverted, last byte inverted, replaced by the next signed block (full blocks only), replaced by its weak twin (same rolling checksum, other bytes)} to its blocks | truncated to every length of {0,1,B-1,B,B+1,2B,size-1} below the size | extended by {1,B-1,B,B+1} (thorough: every single-block alteration combined with every length change) ; plus a structured family (signed contents made of zero blocks and repeated blocks: Z.Z, A.A, A.A.A, Z.A, A.Z, with tails; every assignment of {unchanged, fresh random block, zero block, previous signed block, weak twin} to the blocks) x slicing = every set of <=3 cuts at positions {1,B-1,B,B+1,2B-1,2B,len-1} inside the written range, plus uniform writes of 1, 4096, 32768 and B+1 bytes x mode {error, wound, wound through AggregateWounds}. Sub-check pool-bowl: the real pool bowl (Transpose, and its entry writer fed in 32KiB pieces) writing the same contents into a validating pool in error mode: refused iff some written block differs from or lies beyond the signed blocks. Each case drives the real ValidatingPool writer over verif/lib/mempool; after a failed Write no further Write is issued and the writer is closed, as a caller with a deferred Close does. Oracle by direct byte comparison per block. Non-trivial = the written content has at least one differing or surplus block and at least one boundary between two Write calls lies inside a block.",
+		Rule:  "bounded exhaustive enumeration: signed size in {0,1,B-1,B,B+1,2B,2B+1 (thorough: +3B)} x written content = signed content with every assignment of {unchanged, first byte inverted, last byte inverted, replaced by the next signed block (full blocks only), replaced by its weak twin (same rolling checksum, other bytes)} to its blocks | truncated to every length of {0,1,B-1,B,B+1,2B,size-1} below the size | extended by {1,B-1,B,B+1} (thorough: every single-block alteration combined with every length change) ; plus a structured family (signed contents made of zero blocks and repeated blocks: Z.Z, A.A, A.A.A, Z.A, A.Z, with tails; every assignment of {unchanged, fresh random block, zero block, previous signed block, weak twin} to the blocks) x slicing = every set of <=3 cuts at positions {1,B-1,B,B+1,2B-1,2B,len-1} inside the written range, plus uniform writes of 1, 4096, 32768 and B+1 bytes x mode {error, wound, wound through AggregateWounds}. Sub-check two-writers: two files of one pool open at once and written in turns with pieces of 1..B+1 bytes (signed content must pass through both, error and wound mode). Sub-check pool-bowl: the real pool bowl (Transpose, and its entry writer fed in 32KiB pieces) writing the same contents into a validating pool in error mode: refused iff some written block differs from or lies beyond the signed blocks. Each case drives the real ValidatingPool writer over verif/lib/mempool; after a failed Write no further Write is issued and the writer is closed, as a caller with a deferred Close does. Oracle by direct byte comparison per block. Non-trivial = the written content has at least one differing or surplus block and at least one boundary between two Write calls lies inside a block.",
 		Assumptions: []string{
 			"block contents are seeded pseudo-random (VERIF_SEED); altered bytes are bit inversions of single bytes, or whole signed blocks moved by one position",
 			"sequential part only: the goroutines of wound mode (relay, aggregator, a draining consumer) run under the Go scheduler; their interleavings are enumerated by the scheduler-controlled sub-check wound-interleavings (variant sched)",
@@ -548,6 +549,99 @@ func body(w *runner.W) {
 			}
 		}
 		pb.Done()
+	}
+
+	// two writers of one validating pool open at the same time, fed in turns with pieces
+	// smaller than a block (a writable pool allows several writers at once): signed content
+	// must pass unchanged through both, in error mode and in wound mode
+	tw := runner.NewSub(w, "two-writers", func(c Case, r *runner.Rec) {
+		key := fmt.Sprintf("%s/%d", c.Signed, c.Size)
+		fx := fixtures[key]
+		if fx == nil {
+			signedOf[key] = signedContent(c.Size, w.Seed)
+			fx = newFixture(signedOf[key], w.Seed)
+			fixtures[key] = fx
+		}
+		contents := [2][]byte{wh.Content(fmt.Sprintf("r19/%d", padSize), w.Seed), signedOf[key]}
+		steps := [2]int{c.Cuts[0], c.Cuts[1]}
+		inner := mempool.New([][]byte{nil, nil, nil})
+		vp := &pwr.ValidatingPool{Pool: inner, Container: fx.container, Signature: fx.sig}
+		wounds := 0
+		var drained chan struct{}
+		if c.Mode == "wound" {
+			vp.Wounds = make(chan *pwr.Wound)
+			drained = make(chan struct{})
+			go func() {
+				defer close(drained)
+				for wd := range vp.Wounds {
+					if wd.Kind == pwr.WoundKind_FILE {
+						wounds++
+					}
+				}
+			}()
+		}
+		r.Nontrivial()
+		r.Outcome(c.Mode)
+		var ws [2]io.WriteCloser
+		for i := range ws {
+			var err error
+			if ws[i], err = vp.GetWriter(int64(1 + i)); err != nil {
+				r.Failf("two-writers:getwriter-error", "%v", err)
+				return
+			}
+		}
+		var off [2]int
+		for off[0] < len(contents[0]) || off[1] < len(contents[1]) {
+			for i := range ws {
+				if off[i] >= len(contents[i]) {
+					continue
+				}
+				end := off[i] + steps[i]
+				if end > len(contents[i]) {
+					end = len(contents[i])
+				}
+				if _, err := ws[i].Write(contents[i][off[i]:end]); err != nil {
+					r.Failf("two-writers:signed-content-refused:"+c.Mode, "file %d, bytes [%d,%d) written in turns of %d/%d bytes: %v", 1+i, off[i], end, steps[0], steps[1], err)
+					return
+				}
+				off[i] = end
+			}
+		}
+		for i := range ws {
+			if err := ws[i].Close(); err != nil {
+				r.Failf("two-writers:signed-content-refused:"+c.Mode, "Close of file %d: %v", 1+i, err)
+				return
+			}
+		}
+		if drained != nil {
+			close(vp.Wounds)
+			<-drained
+			if wounds > 0 {
+				r.Failf("two-writers:wounds-for-signed-content", "%d wounds for two files that hold exactly the signed content (turns of %d/%d bytes)", wounds, steps[0], steps[1])
+			}
+		}
+		for i := range ws {
+			var got []byte
+			if b := inner.Written[int64(1+i)]; b != nil {
+				got = b.Bytes()
+			}
+			if !bytes.Equal(got, contents[i]) {
+				r.Failf("two-writers:inner-differs:"+c.Mode, "file %d: the inner pool holds %d bytes that differ from the %d written", 1+i, len(got), len(contents[i]))
+			}
+		}
+	})
+	if tw.Active() {
+		for _, size := range []int{1, 700, B - 1, B, B + 1, 2*B + 5000} {
+			for _, st := range [][]int{{1000, 777}, {1, 1}, {32768, 32768}, {B, 1}, {777, B + 1}} {
+				if st[0] == 1 && size > B+1 {
+					continue // byte-by-byte only for the smaller sizes
+				}
+				for _, mode := range []string{"error", "wound"} {
+					tw.Do(Case{Size: size, Len: size, Cuts: st, Mode: mode})
+				}
+			}
+		}
+		tw.Done()
 	}
 
 	for _, mode := range []string{"error", "wound", "wound-aggregate"} {
